@@ -404,7 +404,9 @@ class OpsMixin:
             return None
         for t, mm in ((ta, ma), (tb, mb)):
             if mm is None and not (z3.is_int_value(t) and 0 <= t.as_long() < M):
-                return None
+                # a plain term counts as a residue when the path condition bounds it by the modulus
+                if z3.is_int_value(t) or not self.p.implied(z3.And(t >= 0, t < M)):
+                    return None
             if mm is not None and mm != M:
                 return None
         nz = zn.normalizer(self.p, M)
